@@ -4,8 +4,8 @@ import json, subprocess
 
 CHECKS = {
  # id: (simulator, category, design_ref, text, note, technique)
- "C05": ("S-sim", "exploration", "DESIGN.md §5 C05",
-         "Seeded search over schedules: the real Session runs over an in-memory transport under an executor the harness owns; every poll, spurious poll, send-progress step and reply delivery (in order or permuted) is a tape choice. Oracle over the history: message-ids distinct, every future resolves to the reply carrying its own unique tag, nothing delivered twice, no stuck task at quiescence, an unknown-id reply never becomes an Ok value.",
+ "C05": ("S-sim + R-sim", "exploration", "DESIGN.md §5 C05",
+         "One run in 64: pipelined requests over the real TLS / SSH / local transports with several complete replies per delivery. Otherwise seeded search over schedules: the real Session runs over an in-memory transport under an executor the harness owns; every poll, spurious poll, send-progress step and reply delivery (in order or permuted) is a tape choice. Oracle over the history: message-ids distinct, every future resolves to the reply carrying its own unique tag, nothing delivered twice, no stuck task at quiescence, an unknown-id reply never becomes an Ok value.",
          "Trusted: the harness's own XML parser and executor; tokio::sync::Mutex (real, executor-agnostic). The three real transports are replaced by the in-memory Transport (they are exercised by C06/C07).",
          "deterministic simulation: seeded scheduler over real session futures, history oracle"),
  "C18": ("S-sim + R-sim", "exploration", "DESIGN.md §5 C18",
@@ -20,20 +20,20 @@ CHECKS = {
          "The server hello advertises a seeded subset of the RFC 6241 capabilities (every url-scheme combination) and optionally the Junos capability; 1-5 requests per session cover every builder with every datastore, filter type, option value and parameter. Soundness is judged on the content found on the wire (parsed by the harness) against a table transcribed from RFC 6241 section 8; completeness on the intended content; a rejected call must leave nothing on the wire.",
          "Trusted: the requirement table in props/c09.rs (edit-config to <startup/> is treated like the library does). load-configuration from a URL cannot be constructed through the public API and is not covered.",
          "deterministic simulation: capability-set x request matrix sampled through the real builders, wire-content oracle"),
- "C10": ("S-sim", "exploration", "DESIGN.md §5 C10",
-         "Every text-valued and fragment-valued parameter site of every operation (19 sites), alone or together with the other parameters of its operation (commit, commit-configuration, edit-config combinations), is driven with adversarial values (XML metacharacters, quotes, ']]>', the delimiter itself, entity look-alikes, comment/CDATA/PI openers, non-ASCII, empty) and generated well-formed fragments. The fake server frames the byte stream by the delimiter like a real one and parses with the harness's strict XML parser: exactly one message per rpc(), well-formed, value read back unchanged, fragments equal as subtrees.",
+ "C10": ("S-sim + R-sim", "exploration", "DESIGN.md §5 C10",
+         "Every text-valued and fragment-valued parameter site of every operation (19 sites), alone or together with the other parameters of its operation (commit, commit-configuration, edit-config combinations), is driven with adversarial values; one run in 1500 sends a 70-260 KiB request over the real transports under back-pressure; (XML metacharacters, quotes, ']]>', the delimiter itself, entity look-alikes, comment/CDATA/PI openers, non-ASCII, empty) and generated well-formed fragments. The fake server frames the byte stream by the delimiter like a real one and parses with the harness's strict XML parser: exactly one message per rpc(), well-formed, value read back unchanged, fragments equal as subtrees.",
          "Decided by generated parameter values. The agent's own payloads (policy names, comments) are covered through A-sim in C01. Attribute-valued parameters are generated without tab/newline.",
          "deterministic simulation: adversarial parameter values through the real serialisers, strict server-side parse"),
  "C12": ("S-sim + R-sim(TLS)", "exploration", "DESIGN.md §5 C12",
-         "Seeded: the hello matrix (base 1.0/1.1/both/neither x other capabilities x session-id variants x namespace style x element order x malformed hellos) under permuted scheduling of the simultaneous hello exchange (hello available early, or server waits for the client's hello; client send back-pressure). Oracle: established iff well-formed, valid session-id and a common base version; negotiated = highest common; reported id and capability set = the hello's; first rpc succeeds.",
+         "Seeded: the hello matrix (base 1.0/1.1/both/neither x other capabilities x session-id variants x namespace style x XML declaration x element order x malformed hellos incl. a second <capabilities> and a foreign-namespace capability element) under permuted scheduling of the simultaneous hello exchange (hello available early, or server waits for the client's hello; client send back-pressure). Oracle: established iff well-formed, valid session-id and a common base version; negotiated = highest common; reported id and capability set = the hello's; first rpc succeeds.",
          "The framing half (a conforming :base:1.1 peer uses chunked framing) needs the real transports and is run over real TLS as the enumerated part.",
          "deterministic simulation: hello matrix x exchange order; framing against a conforming peer over the real TLS transport"),
  "C13": ("S-sim", "exploration", "DESIGN.md §5 C13",
          "Metamorphic pairs: each generated hello / rpc-reply / configuration document is serialised canonically and under a seeded composition of information-preserving rewrites (8 kinds), both are parsed by the real readers; accept/reject and value must agree. A divergence is narrowed to a single rewrite site; the class (message kind, rewrite, element) identifies the finding, and a known divergence does not hide another one in the same message.",
          "Trusted: the harness serialiser (self-checked on every run: both serialisations must be the same document for the harness's own parser).",
          "deterministic simulation: metamorphic serialisation pairs through the real readers"),
- "C14": ("S-sim", "exploration", "DESIGN.md §5 C14",
-         "A session with 1-4 outstanding requests in separate tasks; the hello or one reply is replaced by a mutation of the valid message (20 mutation kinds incl. truncation at any offset, splices, byte flips, invalid UTF-8, huge numbers, 64 KiB / 4 MiB text, deep nesting, random bytes, one leaf text or attribute value replaced by long ASCII + multi-byte text); the mutated reply answers one of six operations (get, lock, open-, close-, load-, commit-configuration) and starts from one of that operation's valid reply shapes or a complete rpc-error, so that every reply reader is reached. Oracle: no panic, quiescence within the step budget, every other request still resolves to its own reply (at most one innocent reader may err), no poll hangs (watchdog). The same mutations are fed to the agent's two configuration readers.",
+ "C14": ("S-sim + R-sim", "exploration", "DESIGN.md §5 C14",
+         "One run in 150: over the real transports the hello or a reply is cut short and the peer then goes away (C07's close kinds). Otherwise a session with 1-4 outstanding requests in separate tasks; the hello or one reply is replaced by a mutation of the valid message (20 mutation kinds incl. truncation at any offset, splices, byte flips, invalid UTF-8, huge numbers, 64 KiB / 4 MiB text, deep nesting, random bytes, one leaf text or attribute value replaced by long ASCII + multi-byte text); the mutated reply answers one of six operations (get, lock, open-, close-, load-, commit-configuration) and starts from one of that operation's valid reply shapes or a complete rpc-error, so that every reply reader is reached. Oracle: no panic, quiescence within the step budget, every other request still resolves to its own reply (at most one innocent reader may err), no poll hangs (watchdog). The same mutations are fed to the agent's two configuration readers.",
          "Mutations that name another outstanding message-id are skipped. A non-returning poll is caught by a 20 s real-time watchdog (class spin).",
          "deterministic simulation: mutated server bytes with other requests outstanding, seeded delivery order"),
  "C01": ("A-sim", "exploration", "DESIGN.md §5 C01",
@@ -49,7 +49,7 @@ CHECKS = {
          "Same trusted base as C01; unknown route-/filter-sets are defined by bgpfu-lib as empty sets and are not faults.",
          "deterministic simulation: IRR fault kinds x candidate/installed combinations through the real agent"),
  "C04": ("A-sim", "fault_enumeration", "DESIGN.md §5 C04",
-         "1-2 faults at seeded positions of open -> get-config x2 -> load x N -> commit -> close-configuration -> close-session, 11 fault kinds (rpc-error, error in load results with/without <ok/>, malformed, truncated, unknown id, another outstanding id, duplicate, close before/after the reply, warning+ok as a non-fault), with reply delays so that a failing load reply arrives after later loads were sent. Oracle on the server's per-session request log and delivery flags.",
+         "1-2 faults at seeded positions of open -> get-config x2 -> load x N -> commit -> close-configuration -> close-session, 13 fault kinds (rpc-error, error in load results with/without <ok/>, <ok/> followed by an error, a reply without any content, malformed, truncated, unknown id, another outstanding id, duplicate, close before/after the reply, warning+ok as a non-fault), with reply delays so that a failing load reply arrives after later loads were sent. Oracle on the server's per-session request log and delivery flags.",
          "The fake server's classification of its own replies (positive / negative / garbage) is the reference for 'acknowledged'.",
          "deterministic simulation: fault position x fault kind injection against a recording server, virtual delays"),
  "C06": ("R-sim", "fault_enumeration", "DESIGN.md §5 C06",
@@ -61,11 +61,11 @@ CHECKS = {
          "The spin watchdog reads a real clock (8 s).",
          "deterministic simulation: disconnect injection at every session phase over real transports, spin watchdog"),
  "C11": ("I-sim", "exploration", "DESIGN.md §5 C11",
-         "The real RpslEvaluator over the vendored irrc pipeline whose socket is an in-memory stream with seeded short reads and partial writes, against FakeIrrd over a generated database (nested/cyclic/hierarchical as-sets, v4-only/v6-only/routeless ASes, duplicates, nested route-sets, filter-sets; thorough: >1000 pipelined queries). One run in 16 evaluates through the bgpfu executable (child process) over a loopback TCP connection to FakeIrrd and compares the printed ranges. Oracle: equality with rpsl's evaluator over a resolver that reads the database directly.",
+         "The real RpslEvaluator over the vendored irrc pipeline whose socket is an in-memory stream with seeded short reads and partial writes, against FakeIrrd over a generated database (nested/cyclic/hierarchical as-sets, v4-only/v6-only/routeless ASes, duplicates, nested route-sets, filter-sets; thorough: >1000 pipelined queries). One run in 40 is a C01-style history of real agent runs (router state == reference set split by family). One run in 16 evaluates through the bgpfu executable (child process) over a loopback TCP connection to FakeIrrd and compares the printed ranges. Oracle: equality with rpsl's evaluator over a resolver that reads the database directly.",
          "rpsl expression semantics and generic-ip set algebra are trusted (both sides). NOT is only generated over ANY and short IPv4 literal sets: generic-ip's complement is exponential in prefix length (seconds for a /24, unbounded for IPv6). The agent half is checked by C01.",
          "deterministic simulation: IRR protocol model with seeded segmentation, reference evaluation"),
  "C15": ("A-sim", "exploration", "DESIGN.md §5 C15",
-         "Agent runs over 1-10 managed policies of which some are unevaluable (unknown as-set, IRR error, PeerAS, AS-path regex, community match) in all (seeded) hash orders. Oracle: the run succeeds, evaluable policies reach their reference sets and are committed, unevaluable ones are untouched.",
+         "Agent runs over 1-10 managed policies of which some are unevaluable (unknown as-set, IRR error, PeerAS, AS-path regex, community match) in all (seeded) hash orders; one run in 60 is made end to end by the agent executable. Oracle: the run succeeds, evaluable policies reach their reference sets and are committed, unevaluable ones are untouched.",
          "Same trusted base as C01.",
          "deterministic simulation: unevaluable members x evaluation order through the real agent"),
  "C16": ("A-sim", "exploration", "DESIGN.md §5 C16",
@@ -77,11 +77,11 @@ CHECKS = {
          "Same trusted base as C11.",
          "deterministic simulation: evaluation histories with injected IRR errors on one connection"),
  "C19": ("A-sim", "exploration", "DESIGN.md §5 C19",
-         "The real Loop::start on a paused clock (periods 1 s .. 1 day), scripted outcomes per connection attempt (success / connect failure / rpc-error or disconnect at a seeded request, job durations 0..3 periods), SIGHUP and SIGINT/SIGTERM raised with libc::raise at seeded virtual instants. Oracle over the timeline of attempts and observed job ends: period after success, 60 s first retry, monotone growth up to max(60 s, period), never zero without SIGHUP, SIGHUP while waiting => run at that instant, terminating signal while waiting => clean exit at that instant. Enumerated part: the agent executable as a child process (real clock, real signals, closed port): -f 0 makes one attempt and exits with failure, a daemon announces 60 s first and then non-shrinking delays bounded by max(60 s, period) for jobs started by SIGHUP, and exits 0 on SIGTERM / SIGINT.",
+         "The real Loop::start on a paused clock (periods 1 s .. 1 day), scripted outcomes per connection attempt (success / connect failure / rpc-error or disconnect at a seeded request / the job panics, job durations 0..3 periods), SIGHUP and SIGINT/SIGTERM raised with libc::raise at seeded virtual instants. Oracle over the timeline of attempts and observed job ends: period after success, 60 s first retry, monotone growth up to max(60 s, period), never zero without SIGHUP, SIGHUP while waiting => run at that instant, terminating signal while waiting => clean exit at that instant. Enumerated part: the agent executable as a child process (real clock, real signals, closed port): -f 0 makes one attempt and exits with failure, a daemon announces 60 s first and then non-shrinking delays bounded by max(60 s, period) for jobs started by SIGHUP, and exits 0 on SIGTERM / SIGINT.",
          "Job end is observed at the transport (refusal, first negative reply / EOF, positive close-session reply).",
          "deterministic simulation: virtual-time timelines with scripted outcomes and real signals"),
  "C20": ("R-sim", "exploration", "DESIGN.md §5 C20",
-         "Real SSH and TLS session establishment (success, rejected credentials, peer closes) under a capturing tracing subscriber with span new/close events, 8 filter directives, 8 passwords; the captured text of the repository's crates is searched for the secret in clear, Debug-escaped, hex, base64 and byte-list encodings (key: DER, private scalar and its halves, PEM lines). Three runs in seven start the agent executable (the repository's bin source) as a child process at -qq..-vvv against a closed port with a client key file that met one of 19 storage faults (torn write, lost / converted line ends, flipped bit, swapped files ...) and search everything it writes.",
+         "Real SSH and TLS session establishment (success, rejected credentials, peer closes) under a capturing tracing subscriber with span new/close events, 8 filter directives, 11 passwords (incl. entirely non-ASCII ones); the captured text of the repository's crates is searched for the secret in clear, Debug-escaped, hex, base64 and byte-list encodings (key: DER, private scalar and its halves, PEM lines). Three runs in seven start the agent executable (the repository's bin source) as a child process at -qq..-vvv against a closed port with a client key file that met one of 19 storage faults (torn write, lost / converted line ends, flipped bit, swapped files ...) and search everything it writes.",
          "The agent executable's successful TLS path is exercised in-process only. Dependency log lines are scanned and reported as observations.",
          "simulated connection attempts over real transports and of the agent executable with injected key-file storage faults, full log capture and multi-encoding search"),
 }
